@@ -26,6 +26,7 @@ from tensordict import TensorDict
 
 from .. import envs as E
 from .. import policies as P
+from ..ref import routing as RR
 from ..kernel import H, HarnessError, StopRun, Streams
 from .loglik import ProcessTap, ref_logp, tol
 
@@ -52,7 +53,9 @@ class C12:
             "multistart_sampling / sampling with num_samples, replication factor from {1,2,3, #starts-1, "
             "#starts, #starts+1, #starts+3}, scripted logits mode, temperature / tanh clip, select_best on/off; "
             "(shared_step) POMO or SymNCO, phase train/val/test, 1-4 TSP instances, num_augment 1-4, num_starts "
-            "2-5, stub policy; (am) real AttentionModel multi-start / multi-sample, batched vs solo.  "
+            "2-5, stub policy; (am) real AttentionModel multi-start / multi-sample, batched vs solo; (antsystem) "
+            "rl4co's AntSystem search (DeepACO/GFACS inference) on a seeded heuristic matrix, 2-4 TSP/CVRP instances, "
+            "3-6 ants x 2-5 iterations, best-of-all-rollouts kept per instance across iterations.  "
             "Non-trivial = replication factor >= 2 (or nested factors); distinct = distinct event-log digest.")
     components_real = ["rl4co.utils.ops (batchify, unbatchify, unbatchify_and_gather, gather_by_index, "
                        "select_start_nodes, get_num_starts, sample_n_random_actions)", "PDPEnv / MTVRPEnv / "
@@ -60,7 +63,8 @@ class C12:
                        "step, post_decoder_hook, _select_best)", "ConstructivePolicy.forward", "environments' "
                        "_reset/_step/get_reward", "POMO.shared_step, SymNCO.shared_step, SharedBaseline, "
                        "StateAugmentation, symnco losses", "AttentionModelPolicy / AttentionModelDecoder (cache "
-                       "regrouping)"]
+                       "regrouping)", "rl4co.models.zoo.deepaco.antsystem.AntSystem (run, _update_results, pheromone "
+                       "update) + NonAutoregressiveDecoder.heatmap_to_logits"]
     components_stub = ["scripted decoder (replica-keyed logits table) in place of a network", "stub policy for "
                        "the shared_step runs (outputs encode instance id and row)", "trainer shim log_dict"]
     assumptions = ["CPU float32", "instances from the library generators at 3-8 nodes; OP max_length hand-set",
@@ -87,6 +91,8 @@ class C12:
         only = E.only_filter(E.ALL_CONSTRUCTIVE)
         if u < 0.12:
             return _plan_ops(rc)
+        if u < 0.17 and any(e in only for e in ("tsp", "cvrp")):
+            return _plan_antsystem(rc, st, rc.choice([e for e in ("tsp", "cvrp") if e in only]))
         if u < 0.24:
             return _plan_shared_step(rc, st)
         if u < 0.36:
@@ -111,7 +117,7 @@ class C12:
 
     @staticmethod
     def shrink(plan):
-        if plan["scenario"] in ("rollout", "am", "shared_step") and len(plan["instances"]) > 1:
+        if plan["scenario"] in ("rollout", "am", "shared_step", "antsystem") and len(plan["instances"]) > 1:
             for i in range(len(plan["instances"])):
                 p = copy.deepcopy(plan)
                 del p["instances"][i]
@@ -157,6 +163,8 @@ class C12:
             return _exec_shared_step(run)
         if sc == "am":
             return _exec_am(run)
+        if sc == "antsystem":
+            return _exec_antsystem(run)
         raise HarnessError(f"unknown scenario {sc}")
 
 
@@ -1175,3 +1183,97 @@ C12.CANARIES = {
     "select_best_actions_of_replica0": _canary_select_best_actions_first,
     "pomo_regroup_reshape": _canary_pomo_regroup_swapped,
 }
+
+
+# --------------------------------------------------------------------------------------------------
+# ant-system search (DeepACO / GFACS inference): best-of-(ants x iterations) kept per instance across calls
+# --------------------------------------------------------------------------------------------------
+def _plan_antsystem(rc, st, name):
+    n = rc.randint(6, 9)
+    cfg = {"env": name, "n": n, "kw": {}, "gen": {"num_loc": n}}
+    env = E.make_env(cfg)
+    B = rc.choice([2, 3, 3, 4])
+    rows = E.gen_rows(env, cfg, B, st.torch_seed("instances"))
+    return {"scenario": "antsystem", "cfg": cfg, "instances": [E.enc_row(r) for r in rows],
+            "n_ants": rc.randint(3, 6), "n_iter": rc.randint(2, 5), "torch_seed": rc.randrange(1 << 30),
+            "temperature": rc.choice([0.1, 1.0, 3.0]), "heat_seed": rc.randrange(1 << 30)}
+
+
+def _exec_antsystem(run):
+    """rl4co.models.zoo.deepaco.antsystem.AntSystem on a seeded heuristic matrix: every iteration rolls out
+    n_ants replicas per instance and the object keeps, per instance, the best reward and trail seen so far.
+    After the run: the reported reward of instance b is the maximum over ITS OWN rollouts of all iterations, and
+    the reported actions are those of one of its own rollouts with that reward (and are worth it on instance b)."""
+    from rl4co.models.zoo.deepaco.antsystem import AntSystem
+
+    plan = run.plan
+    cfg = plan["cfg"]
+    name = cfg["env"]
+    scope = f"antsystem:{name}"
+    rows = [E.dec_row(r) for r in plan["instances"]]
+    B = len(rows)
+    with run.guard(scope, "construct env", promise=False):
+        env = E.make_env(cfg)
+    with run.guard(scope, "env.reset", promise=False):
+        td = E.reset(env, cfg, rows)
+    N = int(td["action_mask"].shape[-1])
+    g = torch.Generator().manual_seed(plan["heat_seed"])
+    log_heur = torch.randn(B, N, N, generator=g) * 0.5
+    seen = []
+    orig = AntSystem._update_results
+
+    def tap(self, actions, reward):
+        seen.append((actions.detach().clone(), reward.detach().clone()))
+        return orig(self, actions, reward)
+
+    AntSystem._update_results = tap
+    try:
+        torch.manual_seed(plan["torch_seed"])
+        # promise=False: when all ants of an instance tie, AntSystem._reward_map divides 0 by 0 and the next
+        # iteration samples from NaN pheromones (observation outside C12's statement, DESIGN 10.3)
+        with run.guard(scope, "AntSystem.run", promise=False, n_ants=plan["n_ants"], n_iterations=plan["n_iter"], B=B):
+            aco = AntSystem(log_heur, n_ants=plan["n_ants"], temperature=plan["temperature"])
+            td_f, actions, reward = aco.run(td, env, plan["n_iter"])
+    finally:
+        AntSystem._update_results = orig
+    run.tick(len(seen))
+    if len(seen) != plan["n_iter"]:
+        run.probe("antsystem_iterations_not_observed")
+        return
+    det = {"n_ants": plan["n_ants"], "n_iter": plan["n_iter"], "B": B, "cfg": cfg}
+    improved_later = False
+    for b in range(B):
+        own = []  # (reward, actions) of every rollout of instance b
+        for it, (a, r) in enumerate(seen):
+            for k in range(a.shape[1]):
+                own.append((float(r[b, k]), [int(x) for x in a[b, k].tolist()], it))
+        best = max(x[0] for x in own)
+        if any(x[0] == best and x[2] > 0 for x in own) and not any(x[0] == best and x[2] == 0 for x in own):
+            improved_later = True
+        got_r = float(reward[b])
+        if abs(got_r - best) > 1e-5 * max(1.0, abs(best)):
+            run.violate(scope, "select_best", f"instance {b}: reported reward {got_r!r} is not the maximum {best!r} of its "
+                        f"own {len(own)} rollouts", constraint="antsystem_reward", instance=b, **det)
+            raise StopRun()
+        got_a = [int(x) for x in actions[b].tolist()]
+        strip = lambda seq: [x for i, x in enumerate(seq) if not (x == 0 and i > 0 and all(y == 0 for y in seq[i:]))]  # noqa: E731
+        cands = [x for x in own if abs(x[0] - best) <= 1e-5 * max(1.0, abs(best))]
+        if not any(strip(x[1]) == strip(got_a) for x in cands):
+            whose = [bb for bb in range(B) for (a, r) in seen for k in range(a.shape[1])
+                     if strip([int(x) for x in a[bb, k].tolist()]) == strip(got_a)]
+            run.violate(scope, "select_best", f"instance {b}: reported actions {got_a} are not those of its best rollout "
+                        f"(reward {best!r}); they are a rollout of instance(s) {sorted(set(whose))}",
+                        constraint="antsystem_actions", instance=b, **det)
+            raise StopRun()
+        # worth what is reported, on this instance
+        ref = RR.make_ref(name, rows[b], cfg)
+        obj = ref.objective(strip(got_a) if name != "tsp" else got_a)
+        if abs(obj - got_r) > 1e-4 * max(1.0, abs(obj)):
+            run.violate(scope, "select_best", f"instance {b}: reported reward {got_r!r} but the reported actions are worth "
+                        f"{obj!r} on this instance", constraint="antsystem_objective", instance=b, **det)
+            raise StopRun()
+    run.probe("antsystem_checked")
+    if improved_later:
+        run.probe("antsystem_improved_in_later_iteration")
+        run.nontrivial = True
+    run.summary = {"reward": [float(x) for x in reward.tolist()]}
